@@ -10,7 +10,7 @@ From Coq Require Import ZArith Bool List.
 Import ListNotations.
 Require Import Naga.Base.Bits32 Naga.Fold.GoArith Naga.Fold.FoldModel Naga.Fold.ModEvalModel Naga.Fold.WgslConst
                Naga.Fold.FoldProofs Naga.Fold.FoldBits Naga.Fold.FoldTree Naga.Fold.FoldAbstract Naga.Fold.FoldErrors
-               Naga.Fold.FoldRefuted Naga.Fold.ModEvalProofs.
+               Naga.Fold.FoldRefuted Naga.Fold.ModEvalProofs Naga.Fold.FoldFloat Naga.Fold.FoldFloatProofs.
 Open Scope Z_scope.
 
 (* ================= 1. whole expression trees, function scope ================= *)
@@ -275,6 +275,28 @@ Theorem c06_vector_const_refuted :                   (* vec % returns the left o
   eval_scalar_arith_bits BDiv 7 0 = 0 /\ eval_scalar_cmp_bits BLt 1 2 = false.
 Proof. exact vector_arith_refuted. Qed.
 
+(* ================= 6. floats (Flocq; these theorems depend on the axioms of Coq's Reals) ================= *)
+(* f32 + - * folded the way naga does it -- operands widened to Go float64, the operation in float64, the
+   result narrowed with float32(...) -- is exactly the WGSL run-time f32 operation (one correctly rounded
+   operation), for ALL finite operand bit patterns: same value, same sign of zero, same overflow to infinity.
+   (binary64 has 53 >= 2*24+1 bits: Flocq's round_round_plus_FLT; the product of two binary32 numbers is exact in binary64) *)
+Theorem c06_fold_f32_arith_is_runtime :
+  forall op a b, (op = BAdd \/ op = BSub \/ op = BMul) -> finite_bits32 a -> finite_bits32 b ->
+  fbin op (LF32 a) (LF32 b) = f32_rt op a b /\ fbin_ast op (LF32 a) (LF32 b) = f32_rt op a b.
+Proof. exact fold_f32_arith_is_runtime. Qed.
+Print Assumptions c06_fold_f32_arith_is_runtime.
+Theorem c06_f32_add_via_f64 :
+  forall x y : f32, BinarySingleNaN.is_finite x = true -> BinarySingleNaN.is_finite y = true ->
+  f32_of_f64 (BinarySingleNaN.Bplus BinarySingleNaN.mode_NE (f64_of_f32 x) (f64_of_f32 y)) = BinarySingleNaN.Bplus BinarySingleNaN.mode_NE x y.
+Proof. exact f32_add_via_f64. Qed.
+(* roundToF16 does not produce f16 values in the subnormal range, and rounds ties up *)
+Theorem c06_round_to_f16_subnormal_refuted :
+  round_to_f16_bits 897589248 = 897589248 /\ ieee_round_to_f16_bits 897589248 = 897581056.
+Proof. exact round_to_f16_subnormal_refuted. Qed.
+Theorem c06_round_to_f16_tie_refuted :
+  round_to_f16_bits 1065357312 = 1065361408 /\ ieee_round_to_f16_bits 1065357312 = 1065353216.
+Proof. exact round_to_f16_tie_refuted. Qed.
+
 (* ================= non-vacuity ================= *)
 (* a tree exercising every node kind, with a defined const value, that the folder folds *)
 Example c06_example :
@@ -288,6 +310,9 @@ Example c06_example_fold :
   forall (F : float_ops), fold_expr F (CBin BAdd (CMath3 MClamp (CUn UNeg (CLit (LI32 7))) (CUn UNeg (CLit (LI32 3))) (CLit (LI32 9)))
                                    (CAs TI32 (CBin BShr (CUn UBNot (CLit (LU32 0))) (CLit (LU32 28))))) = Some (LI32 12).
 Proof. intros F. vm_compute. reflexivity. Qed.
+Example c06_example_float :    (* 0.1f + 0.2f *)
+  finite_bits32 1036831949 /\ finite_bits32 1045220557 /\ fbin BAdd (LF32 1036831949) (LF32 1045220557) = Some (LF32 1050253722).
+Proof. vm_compute. repeat split; reflexivity. Qed.
 Example c06_example_module :
   let e := CBin BMul (CBin BSub (CLit (LU32 7)) (CLit (LU32 2))) (CLit (LU32 3)) in
   mod_tree e = true /\ eval_exact e = true /\ wgsl_eval e = Ok (VU32 15) /\ eval_constant_int e = Some (KUint, 15).
